@@ -20,7 +20,7 @@ RULE = ("(A) the same generated spec (hierarchy 0-2, shared operators, per-node 
         "edited spec; (D) parser.replace is compared with the tokenizer oracle on random equations over identifier sets that "
         "contain one another; non-trivial = model has an edge or an override (A, B) / edit hits an identifier that is part of a "
         "longer one (C, D); distinct = distinct (spec, mode) hash")
-DECIDING = ['yaml_text_models', 'roundtrip_models', 'derived_templates', 'replace_calls', 'replace_nontrivial', 'derivatives_compared']
+DECIDING = ['yaml_text_models', 'roundtrip_models', 'derived_templates', 'replace_calls', 'replace_nontrivial', 'derivatives_compared', 'two_variant_roundtrips']
 ASSUMPTIONS = ['equation edits address whole identifiers on right-hand sides (the left-hand side form x\' is a separate finding)']
 CASE_TIMEOUT = 180
 FOCUS = ['roundtrip_with_overrides', 'roundtrip_after_update_var', 'replace_lhs_prime', 'roundtrip_same_named_templates']
@@ -41,6 +41,9 @@ def plan(tier, seed):
         fam = 'probe:' + feat if feat in opened else 'main'
         mode = 'replace' if feat == 'replace_lhs_prime' else 'roundtrip'
         cases += [{'family': fam, 'cseed': rnd.randrange(1 << 30), 'want': feat, 'mode': mode} for _ in range(k)]
+    # the part of "per-node overrides + shared operators" that works on the pinned tree: exactly two nodes that use the same
+    # operators with different per-node values, no edges; the reloaded circuit is compared by value (operator names may change)
+    cases += [{'family': 'two_variants', 'cseed': rnd.randrange(1 << 30), 'mode': 'two_variants'} for _ in range(30 if tier == 'quick' else 600)]
     return cases
 
 
@@ -78,6 +81,8 @@ def run_case(case, ctx):
             return case_replace(case, ctx, rnd, mech, res)
         if mode == 'derived':
             return case_derived(case, ctx, rnd, mech, res)
+        if mode == 'two_variants':
+            return case_two_variants(case, ctx, rnd, mech, res)
         return case_models(case, ctx, rnd, mech, res)
     except observe.Mismatch as e:
         s = str(e)
@@ -226,6 +231,63 @@ def case_models(case, ctx, rnd, mech, res):
     except observe.Mismatch as e:
         res['spec'] = spec
         raise
+    return res
+
+
+def case_two_variants(case, ctx, rnd, mech, res):
+    """(B') round trip of two nodes sharing their operators with different per-node values; dynamics compared by value"""
+    from pyrates import CircuitTemplate, clear_frontend_caches
+    if case.get('spec') is not None:
+        spec = case['spec']
+    else:
+        for _ in range(300):
+            base, feats, risk = gen.gen_net(rnd, pool=gen.SAFE_POOL, n_nodes=2, max_types=1, depth=0, n_edges=0, forbid=ctx['excluded'])
+            # one operator per node: with several operators the renamed dump entries also break the node-internal links
+            # (part of the recorded finding F-C15-roundtrip-overrides)
+            if all(len(nt['ops']) == 1 for nt in base['node_types'].values()):
+                break
+        for nt in base['node_types'].values():
+            nt['over'] = {}
+        spec = gen.individualize(base, rnd, params='different')
+    res['sig'] = stable_hash([spec, 'two_variants'])
+    res['features'] += ['two_variants']
+    res['nontrivial'] = True
+    cwd = os.getcwd()
+    t_py, _ = build.build_python(spec)
+    try:
+        t_py.to_yaml('model_tv.yaml')
+        clear_frontend_caches()
+        t_rt = CircuitTemplate.from_yaml(f'{cwd}/model_tv/{spec["circ"]["name"]}')
+        f, args, names, smap = t_rt.get_run_func('vf', step_size=1e-3, vectorize=False, verbose=False, clear=True, in_place=False,
+                                                 float_precision='float64')
+    except Exception as e:
+        import traceback
+        res['spec'] = spec
+        raise observe.Mismatch(f"loud: two-variant round trip raised {type(e).__name__}: {e} :: {traceback.format_exc()[-300:]}")
+    ref = RefModel(spec)
+    y0 = np.asarray(args[1], dtype=float)
+    pos = {}
+    for k in ref.state_keys:
+        hits = np.nonzero(y0 == float(ref.val[k]))[0]
+        if len(hits) != 1:
+            res['spec'] = spec
+            raise observe.Mismatch(f"two-variant round trip: initial value {ref.val[k]} of {'/'.join(k)} occurs {len(hits)} times in the reloaded "
+                                   f"circuit's initial state {y0.tolist()}")
+        pos[k] = int(hits[0])
+    for _ in range(3):
+        y = np.array([rnd.gauss(0, 1) for _ in range(len(y0))])
+        exp, ill = observe.ref_rhs_checked(ref, {k: float(y[i]) for k, i in pos.items()}, ref.p0(), ctx['mp'])
+        if ill:
+            continue
+        got = np.asarray(f(0, y.copy(), *args[2:]), dtype=float).ravel()
+        for k, i in pos.items():
+            mech['derivatives_compared'] = mech.get('derivatives_compared', 0) + 1
+            if not abs(got[i] - exp[k]) <= 1e-8 * max(1.0, abs(exp[k])):
+                res['spec'] = spec
+                raise observe.Mismatch(f"two-variant round trip: derivative of {'/'.join(k)} (located by its initial value) is {got[i]!r} in the "
+                                       f"reloaded circuit, reference {exp[k]!r}")
+    mech['two_variant_roundtrips'] = 1
+    res.update(status='ok', symptom='', mech=mech, sample={'mode': 'two_variants', 'nodes': RefModel(spec).node_order})
     return res
 
 
